@@ -1,4 +1,7 @@
 """C11 — gcd / lcm / egcd / crt (engine `gcd`)."""
+import os
+import sys
+
 ID = "C11"
 ENGINE = "gcd"
 CRATE = "e_gcd"
@@ -15,7 +18,11 @@ RULE = ("cases: exhaustive cube for egcd, exhaustive square for gcd/lcm (i64), e
         "up to 2^62) where the property says nothing (`S any`) but the checked i64 model must reproduce every overflow panic; non-trivial = distinct case inside the property's domain "
         "(spec answer not `any`) with at least one operand of magnitude > 1")
 ASSUMPTIONS = [
-    "the Lean model of rlib_gcd is hand-written; it is tied to the code by running both on the same cases",
+    "the Lean model of rlib_gcd is hand-written; it is tied to the code (i) by running both on the same cases and (ii) by theorems "
+    "src_*_eq_model: it equals, for all integer arguments, the definitions that tools/rs2lean.py regenerates from the text of "
+    "rlib/gcd/src/lib.rs on every run (Generated/GcdSrc.lean) — over unbounded integers; machine overflow is covered by (i) only",
+    "tools/rs2lean.py (tokenizer, parser, the translation rules documented at its top) is trusted to render its Rust subset faithfully; "
+    "the `Integer` impls of rlib_num_traits for the primitive types are assumed to be the primitive + - * / % abs and comparisons",
     "harness built with overflow-checks=true so a wrapped intermediate shows up as panic:overflow instead of a silent wrong value",
 ]
 MANIFEST = {
@@ -25,10 +32,12 @@ MANIFEST = {
              "crt returns the unique solution in [0, lcm) exactly when the congruences are compatible, never an error on its domain; the "
              "checked-arithmetic i64 instantiations of egcd and crt (what the driver executes) never overflow inside the 2^20 box and equal "
              "the unbounded functions; gcd/lcm at any integer type do not overflow when |operands| and result are representable. "
-             "The hand-written model is tied to rlib_gcd by a differential correspondence run on every check."),
+             "The hand-written model is tied to rlib_gcd by a differential correspondence run on every check, and (unbounded-integer "
+             "semantics) by machine-checked equality with definitions regenerated from the source text by a translator on every run."),
     "note": ("Trusted: Lean kernel, axioms propext/Classical.choice/Quot.sound, the hand-written model (checked against the code only on the "
              "generated cases: exhaustive small scope + boundary-biased samples over all 12 integer types), harness and driver plumbing."),
-    "technique": "Lean 4 proof of a hand-written model + differential correspondence check against the Rust crate",
+    "technique": ("Lean 4 proof of a hand-written model + differential correspondence check against the Rust crate + source-to-Lean "
+                  "translation of rlib/gcd/src/lib.rs regenerated and proved equal to the model on every run"),
     "design_ref": "DESIGN.md §6 C11",
 }
 
@@ -39,3 +48,29 @@ def nontrivial(case, rec):
         return any(abs(int(t)) > 1 for t in toks[1:])
     except ValueError:
         return True
+
+
+# ---- second tie: the model regenerated from the source text on every run (tools/rs2lean.py) -----------------------
+VERIF = os.path.dirname(os.path.dirname(os.path.abspath(__file__)))
+GENERATED = os.path.join(VERIF, "lean", "RlibModel", "Generated", "GcdSrc.lean")
+SRC_REL = "rlib/gcd/src/lib.rs"
+SRC_FNS = ["gcd", "lcm", "egcd", "crt"]          # the functions the src_*_eq_model theorems of Props/C11.lean speak about
+
+
+def extract(repo):
+    """Translate <repo>/rlib/gcd/src/lib.rs into Generated/GcdSrc.lean (written only when its text changes).  A construct
+    outside the translator's subset is a broken correspondence; then the generated file contains no definitions, so the
+    src_* theorems stop compiling as well (never a stale file left in place)."""
+    tools = os.path.join(VERIF, "tools")
+    if tools not in sys.path:
+        sys.path.insert(0, tools)
+    import rs2lean
+    info, problems = rs2lean.run(os.path.join(repo, SRC_REL), GENERATED, "Rlib.GcdSrc", SRC_REL, ID, SRC_FNS)
+    params = {"translated_from": SRC_REL, "translated_functions": info.get("functions", []),
+              "translated_loops": info.get("loops", []), "recursive": info.get("recursive", []),
+              "not_translated": info.get("not_translated", []), "generated_file": "lean/RlibModel/Generated/GcdSrc.lean",
+              "generated_file_rewritten": info.get("rewritten", False)}
+    missing = [f for f in SRC_FNS if f not in params["translated_functions"]]
+    if missing and not problems:
+        problems.append(f"rs2lean: functions {missing} were not translated from {SRC_REL}")
+    return params, problems
